@@ -446,6 +446,12 @@ Fixpoint cmd_loop (v : variant) (complete : bool) (tabs : alltables) (e : env)
 Definition has_key {V} (k : N) (l : list (N * V)) : bool :=
   match assocN k l with Some _ => true | None => false end.
 
+(** [Repaired] (greedy-shadow fix): in matching mode a state that expects an undefined nonterminal
+    accepts whatever is left, and that is decided before the literals are tried *)
+Definition star_first (v : variant) (complete : bool) (T : tables) (state : N) : bool :=
+  negb (quirky v) && negb complete
+  && match t_mstar T with Some stars => has_key state stars | None => false end.
+
 (** the while loop; returns (matched, subword_state, char_index, log) *)
 Fixpoint sw_loop (fuel : nat) (v : variant) (complete : bool) (tabs : alltables) (e : env) (T : tables)
          (acc : list N) (word : string) (state : N) (ci : nat) (log : list invocation)
@@ -455,6 +461,7 @@ Fixpoint sw_loop (fuel : nat) (v : variant) (complete : bool) (tabs : alltables)
   | S fuel' =>
     (* [Repaired] (df274e8): a complete word is matched only when it is exhausted in an accepting state *)
     if Nat.leb (String.length word) ci then Ok (quirky v || complete || memN state acc, state, ci, log)
+    else if star_first v complete T state then Ok (true, state, ci, log)
     else
       let sub := sdrop ci word in
       do s1 <- match assocN state (t_mlit T) with
